@@ -344,7 +344,14 @@ impl CursorTracker for CursorTrackerImpl<'_> {
                         .sum::<usize>()
                         + reverse_col as usize;
 
-                    (new_token_offset + tok.get_content().len() - offset_from_end) as u32
+                    // The token may have been rewritten (re-indented): the distance remembered
+                    // from its end can then exceed its new length, or point into a character.
+                    let content = tok.get_content();
+                    let mut offset = content.len().saturating_sub(offset_from_end);
+                    while !content.is_char_boundary(offset) {
+                        offset -= 1;
+                    }
+                    (new_token_offset + offset) as u32
                 }
                 TokPos::Whitespace {
                     col,
